@@ -77,7 +77,7 @@ CONTRACTS = [
                  C("A-GIT merge-base", "implies(seq_len(args) == 5 and args[0] == 'git' and args[1] == 'merge-base' and args[2] == '--is-ancestor',"
                                        " (result.returncode == 0) == Anc(args[3], args[4]))"),
                  C("A-GIT rev-list", "implies(seq_len(args) == 5 and args[0] == 'git' and args[1] == 'rev-list' and args[2] == '--count' and result.returncode == 0,"
-                                     " int_str(Dist_caret(args[3], args[4])) == str_strip(result.stdout) and Dist_caret(args[3], args[4]) >= 0)")],
+                                     " int_str(Dist_caret(args[3], args[4])) == str_strip(result.stdout) and Dist_caret(args[3], args[4]) >= 0 and in_re(str_strip(result.stdout), 'digits'))")],
              trusted_reason="A-GIT: meaning of `git merge-base --is-ancestor A B` and `git rev-list --count X ^Y`"),
     Contract("ext::str.strip", returns="str", ensures=["result == str_strip(self)"], trusted_reason="str.strip as an uninterpreted function"),
     Contract("ext::VersionIndex.get_latest_output_version", params={"task_identifier": "TaskIdentifier"}, returns="Opt[Version]",
